@@ -37,7 +37,8 @@ D.generate (default unsupported_level never raises) is counted as `ungenerable` 
 Input space: see families() -- a pure function of the tier.
 
 Keys:  c01:<reparse|fixpoint|base-tree-equal|time-format>:<dialect|base>:<cause class>
-  reparse          cause = error class + first error description with digits / quoted text removed, or `statement-count`
+  reparse          cause = error class + first error description with digits / quoted text removed [+ class of the smallest
+                           sub-tree of parse(s) that fails in isolation, see culprit()], or `statement-count`
   fixpoint         cause = first structural difference between t0 (which generated s1) and t1 (which generated s2), found
   base-tree-equal          top-down: `<Class>` (class replaced: `<ClassA>-><ClassB>`), `<Class>.<arg>` (arg present on one
                            side only / scalar differs / list length differs); `same-tree` if no structural difference
@@ -210,6 +211,53 @@ def error_cause(e):
     return f"{type(e).__name__}:{desc[:60]}"
 
 
+def _parses_single(D, text):
+    st, r = _call(lambda: D.parse(text))
+    return st == "ok" and len([x for x in r if x is not None]) == 1
+
+
+def culprit(D, t0):
+    """names the key of a reparse failure (never decides a verdict).
+    1. the deepest sub-tree of t0 that fails in isolation: its own generated text, wrapped as `SELECT <text>` (conditions,
+       sub-queries), `SELECT CAST(x AS <text>)` (data types) or bare (queries), does not parse;
+    2. otherwise the deepest sub-tree whose replacement by a neutral leaf (a column) makes the whole output parse;
+    None if neither exists."""
+    nodes = [n for n in t0.walk() if n.parent is not None]
+    nodes.sort(key=lambda n: -n.depth)
+    nodes = nodes[:200]
+    for n in nodes:
+        if isinstance(n, exp.DataType):
+            wrap = "SELECT CAST(x AS {})"
+        elif isinstance(n, (exp.Condition, exp.Subquery)):
+            wrap = "SELECT {}"
+        elif isinstance(n, exp.Query):
+            wrap = "{}"
+        else:
+            continue
+        st, text = _call(lambda: D.generate(n))
+        if st != "ok" or not text:
+            continue
+        if not _parses_single(D, wrap.format(text)):
+            return type(n).__name__
+    for n in nodes:
+        t = t0.copy()
+        twin = None
+        for x, y in zip(t0.walk(), t.walk()):  # same node in the copy: walk order is deterministic
+            if x is n:
+                twin = y
+                break
+        if twin is None or twin.parent is None or isinstance(twin, exp.DataType):
+            continue
+        repl = exp.column("zz")
+        st, _ = _call(lambda: twin.replace(repl))
+        if st != "ok":
+            continue
+        st, text = _call(lambda: D.generate(t))
+        if st == "ok" and _parses_single(D, text):
+            return type(n).__name__
+    return None
+
+
 # ---------------------------------------------------------------------------------------------------
 # the contract
 def check_pair(item):
@@ -249,7 +297,8 @@ def check_pair(item):
         if s1 != s:
             res["changed"] += 1
         if st == "err":
-            V("reparse", error_cause(r1), f"generated text does not parse: {str(r1)[:120]}", s1=s1, tree=ti)
+            cul = culprit(D, t0)
+            V("reparse", error_cause(r1) + (":" + cul if cul else ""), f"generated text does not parse: {str(r1)[:120]}", s1=s1, tree=ti)
             continue
         r1 = [t for t in r1 if t is not None]
         if len(r1) != 1:
